@@ -1731,42 +1731,38 @@ impl<'a, C: Crypto> TransportRunner<'a, C> {
                 }
             }
             Err(e) if matches!(e.code(), ErrorCode::NoSpaceExchanges) => {
-                // TODO: Before closing the session, try to take other measures:
-                // - For CASESigma1 & PBKDFParamRequest - send Busy instead
-                // - For Interaction Model interactions that do need an ACK - send IM Busy,
-                //   wait for ACK and retransmit without releasing the RX buffer, potentially
-                //   blocking all other interactions
+                // All exchange slots of the session are taken, which means they carry live
+                // exchanges: the session must stay. The one thing that cannot be served is the
+                // new exchange.
+                if !packet.header.plain.is_encrypted()
+                    && packet.header.plain.get_src_nodeid().is_some()
+                    && MessageMeta::from(&packet.header.proto).is_new_session()
+                {
+                    // `CASESigma1` / `PBKDFParamRequest`: answer Busy, as when the session
+                    // table is full
+                    warn!(
+                        "\n>>RCV {}\n      => No space for a new exchange, sending Busy",
+                        packet
+                    );
 
-                error!(
-                    "\n>>RCV {}\n      => No space for a new exchange, closing session",
-                    packet
-                );
+                    let ack = packet.header.plain.ctr;
 
-                self.matter.with_state(|state| {
-                    // `unwrap` is safe because we know we have a session.
-                    // If we didn't have a session, the error code would've been `NoSession`
-                    //
-                    // Also, since the transport code is single threaded, and since we don't `await`
-                    // after decoding the packet, no code can the session
-                    let session_id = unwrap!(state
-                        .sessions
-                        .get_for_rx(&packet.peer, &packet.header.plain))
-                    .id;
+                    packet.header.proto.toggle_initiator();
+                    packet.header.proto.set_ack(Some(ack));
 
-                    packet.header.proto.exch_id = state.sessions.get_next_exch_id(&self.crypto)?;
-                    packet.header.proto.set_initiator();
+                    self.write_packet(packet, None, None, true, |wb| {
+                        sc_write(wb, SCStatusCodes::Busy, &[0xF4, 0x01])
+                    })?;
 
-                    // See above why `unwrap` is safe
-                    let mut session = unwrap!(state.sessions.remove(session_id));
-                    self.transport().notify_session_removed();
-
-                    self.write_packet(packet, Some(&mut session), None, true, |wb| {
-                        sc_write(wb, SCStatusCodes::CloseSession, &[])
-                    })
-                })?;
-
-                Self::netw_send(send, packet.peer, &packet.buf[packet.payload_start..], true)
-                    .await?;
+                    Self::netw_send(send, packet.peer, &packet.buf[packet.payload_start..], true)
+                        .await?;
+                } else {
+                    // TODO: For Interaction Model interactions that do need an ACK - send IM Busy
+                    error!(
+                        "\n>>RCV {}\n      => No space for a new exchange, dropping",
+                        packet
+                    );
+                }
             }
             Err(e) if matches!(e.code(), ErrorCode::NoExchange) => {
                 mrp_log!(
